@@ -113,7 +113,7 @@ PROPS = {
 }
 
 PROPS.update({
-    "C09": dict(adp_prop(["EyeballVerif.Props.C09"],
+    "C09": dict(adp_prop(["EyeballVerif.Props.C09", "EyeballVerif.Props.StageSound"],
         "head_handle_diff / tail_handle_diff / skip_handle_diff: for every diff valid on the buffered vector, every limit/count and every vector, the emitted diffs replayed strictly on the old view "
         "(take L / lastN L / drop c) give the new view; head_update_limit / skip_update_count for every (old,new,vector); Tail::update_limit: full statement refuted by a kernel-checked witness "
         "(known finding D2) and proved outside the D2 signature (tail_update_limit_partial); *_initial: the constructors hand out the spec view"),
@@ -123,7 +123,7 @@ PROPS.update({
                "Initial values = spec view. Tied to the code by exhaustive small-scope + random differential runs with per-stage oracles; stream end and Pending-quiescence are checked by the oracle on every history."),
         technique="Lean 4 proof (per-arm refinement, list extensionality + grind) + model/implementation correspondence",
         design_ref="DESIGN.md §6 C09"),
-    "C10": dict(adp_prop(["EyeballVerif.Props.C10"],
+    "C10": dict(adp_prop(["EyeballVerif.Props.C10", "EyeballVerif.Props.StageSound"],
         "filter_handle: for every partial mapping f, source, bookkeeping state satisfying FInv and valid diff: FInv is preserved and the emitted diff replayed strictly on filterMap f src gives filterMap f src'; filter_init"),
         claim=("Lean 4 theorem filter_handle: for every partial mapping f (Filter is the instance 'some x if p x'), every source vector and every diff valid on it, if the index bookkeeping is right before "
                "(FInv: original_len = length, filtered_indices = positions of the passing items) it is right afterwards and the emitted diff, replayed strictly on the old filtered view, gives the new filtered view "
@@ -138,7 +138,7 @@ PROPS.update({
                "checks the bound after each single diff of both stream flavours."),
         technique="Lean 4 proof (bounded-run predicate by case analysis and induction over replicate/map runs) + model/implementation correspondence",
         design_ref="DESIGN.md §6 C15"),
-    "C11": dict(adp_prop(["EyeballVerif.Props.C11", "EyeballVerif.Props.C11Sort", "EyeballVerif.Lemmas.SortInv", "EyeballVerif.Lemmas.Bsearch"],
+    "C11": dict(adp_prop(["EyeballVerif.Props.C11", "EyeballVerif.Props.C11Sort", "EyeballVerif.Props.StageSound", "EyeballVerif.Lemmas.SortInv", "EyeballVerif.Lemmas.Bsearch"],
         "sort_handle_sound: for every lawful comparator (total preorder), every sort function meeting the sort specification, every source, buffer and valid diff that is not a shortening Truncate: the arm does not "
         "panic, the emitted diffs replayed strictly on the old sorted view give the new one, and the new buffer is a sorted permutation of the position-tagged new source (SInvP; sinvP_sinv: every position exactly once "
         "with its item); sort_run_sound: the same over whole histories from SortImpl::new on (induction); bsearch_spec (imbl's binary_search_by loop, strong induction); appendLoop_spec (the Append arm's loop, induction); "
